@@ -74,6 +74,44 @@ func runKqid(r *rng, n int) {
 	}
 }
 
+// runKmapbig: the translation table has no size at which it forgets: far more distinct source
+// paths than any test directory holds go through one mapper (and a second one sharing the
+// generator), then earlier ones are asked for again (C20 "one distinct path for good"; C19: the
+// QIDs Readdir lists through composefs are those Walk and GetAttr report).
+func runKmapbig(r *rng, n int) {
+	for round := 0; round < n; round++ {
+		g := &qids.PathGenerator{}
+		ms := []*qids.Mapper{qids.NewMapper(g), qids.NewMapper(g)}
+		total := []int{70000, 140000, 300000}[r.intn(3)]
+		first := make(map[uint64]uint64, total)
+		seen := make(map[uint64]bool, total)
+		unstable, collide := 0, 0
+		for i := 0; i < total; i++ {
+			src := uint64(i)*2654435761 + 17
+			o := ms[0].QIDFor(p9.QID{Path: src})
+			first[src] = o.Path
+			if seen[o.Path] {
+				collide++
+			}
+			seen[o.Path] = true
+			if i%1000 == 0 {
+				o2 := ms[1].QIDFor(p9.QID{Path: src})
+				if seen[o2.Path] {
+					collide++
+				}
+				seen[o2.Path] = true
+			}
+		}
+		for k := 0; k < 2000; k++ {
+			src := uint64(r.intn(total))*2654435761 + 17
+			if ms[0].QIDFor(p9.QID{Path: src}).Path != first[src] {
+				unstable++
+			}
+		}
+		emit("kmapbig sources=%d => unstable=%d collide=%d", total, unstable, collide)
+	}
+}
+
 // runKmode: every one of the 7 x 4096 (type, permission) values, plus invalid types.
 func runKmode(r *rng, n int) {
 	types := []uint32{0140000, 0120000, 0100000, 060000, 040000, 020000, 010000}
